@@ -767,6 +767,21 @@ func runC11(c *Ctx) {
 		arg1 := cs.Common().Args[1]
 		fv, _ := loadedField(arg1)
 		okLen := fv != nil && fv.Name() == "SplitLen"
+		if gc, isCall := arg1.(*ssa.Call); isCall && !okLen && !gc.Call.IsInvoke() {
+			// a getter: every return of the called module function is the configured length itself
+			if g := gc.Call.StaticCallee(); g != nil && c.InModuleFn(g) && g.Blocks != nil && c.readsOnlyConfig(g, 0) {
+				nR, all := 0, true
+				funcInstrs(g, func(in ssa.Instruction) {
+					if rt, isR := in.(*ssa.Return); isR && len(rt.Results) == 1 {
+						nR++
+						if f2, _ := loadedField(retVal(rt, 0)); f2 == nil || f2.Name() != "SplitLen" {
+							all = false
+						}
+					}
+				})
+				okLen = all && nR > 0
+			}
+		}
 		// a wrapper that only supplies the configured length: unexported, returns the splitter's result as it is,
 		// passes its own parameter as the text - its callers are the call sites that matter
 		w := cs.Parent()
